@@ -180,3 +180,69 @@ Qed.
 Example C01_typed_example :
   unser_typed [] (fun _ _ => None) 2 ex_env (SEnumStr (Some "MyStr") [("x", None)]) (vstr "x") = Ok (VStr (TNamed "MyStr" TStr) "x").
 Proof. reflexivity. Qed.
+
+(* ====================================================================================================
+   Struct-mapped objects (Schema/XOps.v; Proofs/XRound.v, XRoundThm.v).
+
+   FULL STATEMENT (NOT proved as a whole):
+     C01_struct_roundtrip : xrt_desc e props si = true -> raw_keys_unique v = true -> (children round-trip) ->
+       xunser (S f) e O v = Ok n ->
+       xvalidate (S f') e O n = Ok tt /\ exists w, xserialize (S f') e O n = Ok w /\ xunser (S f') e O w ~ Ok n
+     with O = XObject id u props (Some si) and ~ = equality up to treat-empty-as-default (empty value = absence).
+   PROVED (C01_struct_roundtrip_partial): the first two conjuncts — the value Unserialize returns passes Validate
+   and is accepted by Serialize — for every struct descriptor satisfying the BOOLEAN `xrt_desc` (unique property
+   names; direct fields of the property's reflected type or a pointer to it, distinct per property;
+   `optional_fields_representable`: a property that is not required sits on a field whose zero value reads as
+   absent — pointer, nil interface, or treat-empty-as-default —, and a treat-empty-as-default property is not
+   required, has no required_if / required_if_not and is named in no required_if_not), relative to the property types
+   (xchildren_ok: what a property type's Unserialize returns is of its reflected type, passes its Validate and is
+   accepted by its Serialize).  This is exactly the statement D44 violates (C01_struct_d44_refuted) — the D44
+   descriptor has xrt_desc = false (C01_struct_desc_example).  The key lemma (C01_struct_extract_inverts_assign):
+   field extraction inverts unserializeToStruct.  MISSING: the third conjunct (re-Unserialize), which is exercised
+   by the direct check of family `structobj` (op rt); promoted fields of embedded structs (outside xrt_desc). *)
+From Verif Require Import Base.XReflect Schema.SpecObj Schema.XSyntax Schema.XOps Schema.XWf
+  Proofs.XStruct Proofs.XPaths Proofs.XRound Proofs.XRoundThm Proofs.XExamples.
+
+Theorem C01_struct_roundtrip_partial : forall words pu f f' e id u props si v n,
+  xrt_desc e props si = true -> raw_keys_unique v = true -> xchildren_ok words pu f f' e props ->
+  xunser words pu (S f) e (XObject id u props (Some si)) v = Ok n ->
+  xvalidate words pu (S f') e (XObject id u props (Some si)) n = Ok tt /\
+  exists w, xserialize words pu (S f') e (XObject id u props (Some si)) n = Ok w.
+Proof. exact x_struct_roundtrip_partial. Qed.
+Print Assumptions C01_struct_roundtrip_partial.
+
+(* field extraction (getFieldReflection + the treat-empty-as-default test) inverts unserializeToStruct *)
+Theorem C01_struct_extract_inverts_assign : forall e props si, xrt_desc e props si = true -> forall (r : raw) (n : gval),
+  NoDup (map fst r) ->
+  (forall k, In k (map fst r) -> In k (map fst props)) ->
+  (forall k x p, In (k, x) r -> In (k, p) props -> xres_ok (xprt e (k, p)) x = true) ->
+  xto_struct e si r = Ok n ->
+  exists sv, xstruct_arg si n = Some sv /\
+    forall np, In np props ->
+      match alookup (fst np) r with
+      | Some x => xfield_value e si sv np = Some x \/
+                  (xfield_value e si sv np = None /\ p_empty_is_default (snd np) = true)
+      | None => xabsent_ok e si np = true -> xfield_value e si sv np = None
+      end.
+Proof. exact xto_struct_extract. Qed.
+Print Assumptions C01_struct_extract_inverts_assign.
+
+(* D44 (known finding): outside optional_fields_representable the value Unserialize returns fails Validate and Serialize *)
+Theorem C01_struct_d44_refuted :
+  exists (e : xenv) (s : xschema) (v n : gval),
+    xunser w_words w_pu 50 e s v = Ok n /\
+    is_err (xvalidate w_words w_pu 50 e s n) = true /\
+    is_err (xserialize w_words w_pu 50 e s n) = true.
+Proof. exact x_struct_d44_refuted. Qed.
+Print Assumptions C01_struct_d44_refuted.
+
+(* the boolean accepts the harness's *XPtrs (optional properties on pointer fields) and XNested (required members on
+   value fields, an optional member behind a pointer) and rejects the D44 descriptor *)
+Example C01_struct_desc_example :
+  xrt_desc (xs_env xs_tab) xs_ptrs_props xs_ptrs_si = true /\
+  xrt_desc (xs_env xs_tab) xs_nested_props xs_nested_si = true /\
+  xrt_desc (w_env [])
+    [("a", w_prop (XInt None None None) false ["b"] None); ("b", w_prop (XInt None None None) false [] None)]
+    (mkStructInfo "XTwo" false
+       [("a", mkFieldRef "A" [0%nat] [0%nat] (TInt I64)); ("b", mkFieldRef "B" [1%nat] [1%nat] (TInt I64))]) = false.
+Proof. exact xs_rt_desc. Qed.
